@@ -1,0 +1,129 @@
+//! Verification hook H1 (cargo feature `verif` only): drop-in `Mutex` / `RwLock` types that
+//! delegate to parking_lot's raw locks and report every acquisition and release to an
+//! optional process-wide observer. With no observer installed they behave exactly like the
+//! parking_lot types. A lock is identified by the address of its raw lock.
+use parking_lot::lock_api;
+use parking_lot::lock_api::{RawMutex as RawMutexTrait, RawRwLock as RawRwLockTrait};
+use std::sync::atomic::{AtomicBool, Ordering};
+use std::sync::Arc;
+
+#[derive(Clone, Copy, Debug, PartialEq, Eq)]
+pub enum Mode {
+    Read,
+    Write,
+}
+
+/// Observer of lock events. `before_acquire` runs before the thread may block and may
+/// itself block (a scheduler uses this to park the thread).
+pub trait LockObserver: Send + Sync {
+    fn before_acquire(&self, lock: usize, mode: Mode);
+    fn acquired(&self, lock: usize, mode: Mode);
+    fn released(&self, lock: usize, mode: Mode);
+}
+
+static ACTIVE: AtomicBool = AtomicBool::new(false);
+static OBSERVER: std::sync::RwLock<Option<Arc<dyn LockObserver>>> = std::sync::RwLock::new(None);
+
+pub fn set_observer(o: Option<Arc<dyn LockObserver>>) {
+    ACTIVE.store(o.is_some(), Ordering::SeqCst);
+    *OBSERVER.write().unwrap() = o;
+}
+
+#[inline]
+fn with_observer(f: impl FnOnce(&dyn LockObserver)) {
+    if ACTIVE.load(Ordering::Relaxed) {
+        let o = OBSERVER.read().unwrap().clone();
+        if let Some(o) = o {
+            f(&*o);
+        }
+    }
+}
+
+pub struct RawMutex(parking_lot::RawMutex);
+
+unsafe impl lock_api::RawMutex for RawMutex {
+    #[allow(clippy::declare_interior_mutable_const)]
+    const INIT: RawMutex = RawMutex(<parking_lot::RawMutex as RawMutexTrait>::INIT);
+    type GuardMarker = <parking_lot::RawMutex as RawMutexTrait>::GuardMarker;
+
+    fn lock(&self) {
+        let id = self as *const _ as usize;
+        with_observer(|o| o.before_acquire(id, Mode::Write));
+        self.0.lock();
+        with_observer(|o| o.acquired(id, Mode::Write));
+    }
+    fn try_lock(&self) -> bool {
+        let ok = self.0.try_lock();
+        if ok {
+            let id = self as *const _ as usize;
+            with_observer(|o| o.acquired(id, Mode::Write));
+        }
+        ok
+    }
+    unsafe fn unlock(&self) {
+        let id = self as *const _ as usize;
+        self.0.unlock();
+        with_observer(|o| o.released(id, Mode::Write));
+    }
+}
+
+pub struct RawRwLock(parking_lot::RawRwLock);
+
+unsafe impl lock_api::RawRwLock for RawRwLock {
+    #[allow(clippy::declare_interior_mutable_const)]
+    const INIT: RawRwLock = RawRwLock(<parking_lot::RawRwLock as RawRwLockTrait>::INIT);
+    type GuardMarker = <parking_lot::RawRwLock as RawRwLockTrait>::GuardMarker;
+
+    fn lock_shared(&self) {
+        let id = self as *const _ as usize;
+        with_observer(|o| o.before_acquire(id, Mode::Read));
+        self.0.lock_shared();
+        with_observer(|o| o.acquired(id, Mode::Read));
+    }
+    fn try_lock_shared(&self) -> bool {
+        let ok = self.0.try_lock_shared();
+        if ok {
+            let id = self as *const _ as usize;
+            with_observer(|o| o.acquired(id, Mode::Read));
+        }
+        ok
+    }
+    unsafe fn unlock_shared(&self) {
+        let id = self as *const _ as usize;
+        self.0.unlock_shared();
+        with_observer(|o| o.released(id, Mode::Read));
+    }
+    fn lock_exclusive(&self) {
+        let id = self as *const _ as usize;
+        with_observer(|o| o.before_acquire(id, Mode::Write));
+        self.0.lock_exclusive();
+        with_observer(|o| o.acquired(id, Mode::Write));
+    }
+    fn try_lock_exclusive(&self) -> bool {
+        let ok = self.0.try_lock_exclusive();
+        if ok {
+            let id = self as *const _ as usize;
+            with_observer(|o| o.acquired(id, Mode::Write));
+        }
+        ok
+    }
+    unsafe fn unlock_exclusive(&self) {
+        let id = self as *const _ as usize;
+        self.0.unlock_exclusive();
+        with_observer(|o| o.released(id, Mode::Write));
+    }
+}
+
+pub type Mutex<T> = lock_api::Mutex<RawMutex, T>;
+pub type MutexGuard<'a, T> = lock_api::MutexGuard<'a, RawMutex, T>;
+pub type RwLock<T> = lock_api::RwLock<RawRwLock, T>;
+pub type RwLockReadGuard<'a, T> = lock_api::RwLockReadGuard<'a, RawRwLock, T>;
+pub type RwLockWriteGuard<'a, T> = lock_api::RwLockWriteGuard<'a, RawRwLock, T>;
+
+/// address used as the identity of a lock in observer callbacks
+pub fn mutex_id<T>(m: &Mutex<T>) -> usize {
+    unsafe { m.raw() as *const RawMutex as usize }
+}
+pub fn rwlock_id<T>(l: &RwLock<T>) -> usize {
+    unsafe { l.raw() as *const RawRwLock as usize }
+}
